@@ -122,6 +122,16 @@ def op_event(tid, cls, p, op, arg, refs, history):
     return ev
 
 
+def consistent_refusal(cls, p, op, ev):
+    """A computation that raises is not a C07 violation when a freshly constructed object with the same attribute
+    values refuses too (e.g. an implementation that rejects NFFT < N instead of cropping the data): C07 relates the
+    live object to the fresh one."""
+    if not ev.get('err') or op not in ('Call', 'ReadPsd', 'GetConverted') or 'broken' in ev.get('post', {}):
+        return False
+    ok, _ = call_guard(lambda: np.array(cls.ctor(ev['post']).psd))
+    return not ok
+
+
 # ---------------------------------------------------------------------------- graph walk
 def op_of_label(label):
     name, args = tlc.parse_label(label)
@@ -194,6 +204,9 @@ def walk_graph(chk, cls, dt, nodes, init, edges, rec, refs, rng, max_edges):
             rec.add(snap_event(tid, cls, o), meta)
             pre = D.attrs_of(o, cls)
             ev = op_event(tid, cls, o, op, arg, refs, [x[2] for x in h] + [pre])
+            if consistent_refusal(cls, o, op, ev):
+                chk.count(part, 'consistent-refusals')
+                continue
             rec.add(ev, meta)
             done += 1
             # spec -> code: the mechanism model's prediction of the object's internals
@@ -206,7 +219,10 @@ def walk_graph(chk, cls, dt, nodes, init, edges, rec, refs, rng, max_edges):
             if op != 'ReadPsd' and not ev['err']:
                 o2 = D.clone(o)
                 ev2 = op_event(tid, cls, o2, 'ReadPsd', 0, refs, [x[2] for x in h] + [pre, ev['post']])
-                rec.add(ev2, dict(meta, then='ReadPsd'))
+                if consistent_refusal(cls, o2, 'ReadPsd', ev2):
+                    chk.count(part, 'consistent-refusals')
+                else:
+                    rec.add(ev2, dict(meta, then='ReadPsd'))
             if tree:
                 rep[v] = o
                 seen.add(v)
@@ -310,6 +326,9 @@ def random_walks(chk, cls, dt, rec, refs, rng, nwalks, length):
                     op, arg = rng.choice(ops)
             script.append([op, arg])
             ev = op_event(tid, cls, p, op, arg, refs, history)
+            if consistent_refusal(cls, p, op, ev):
+                chk.count('walks-%s-%s' % (cls.name, dt), 'consistent-refusals')
+                break
             rec.add(ev, dict(meta, upto=len(script)))
             if ev['err'] or 'broken' in ev['post']:
                 break
